@@ -150,12 +150,20 @@ def run(ctx):
         if not b:
             raise vf.Undecided('c08_neg for %s does not compile: %s' % (t['name'], err[:1200]))
     ctx.pmap(lambda b: ctx.run(b[0]), bins)
+    deep = ''
+    if ctx.tier == 'thorough':
+        # every string up to the depth that fits the budget, per type, split 8 ways by first byte
+        budget = os.environ.get('VERIF_C08_DEEP_BUDGET', '4e9')
+        parts = 8
+        ctx.pmap(lambda a: ctx.run(a[0], args=['deep', str(a[1]), str(parts), budget]), [(b[0], k) for b in bins for k in range(parts)])
+        deep = ('; and EVERY string up to the largest length L with |alphabet|^L <= %s over the bytes of the type\'s own spellings '
+                '(L per type in the notes), judged by a trie of the table keys' % budget)
     ev += h.stat('neg_strings')
     rule = ('all enumerators of the %d enumeration types found by compile-time reflection over all int8 values; '
             'every accepted spelling (= key of the spelling table) expanded by the independent symbol oracle; '
             'negative space = every string within edit distance 1 of an accepted spelling over the bytes occurring in '
             'the type\'s spellings plus NUL/0xff/space, case flips, and all strings up to length %s over that alphabet, '
-            'compared with a linear memcmp scan of the table keys. distinct_nontrivial = distinct (type, enumerator) and '
+            'compared with a linear memcmp scan of the table keys' + deep + '. distinct_nontrivial = distinct (type, enumerator) and '
             '(type, enumerator, spelling) cases plus distinct negative-space strings that differ from every key') % (
                 len(tables), '3' if ctx.tier == 'thorough' else '2')
     return vf.finish(ctx, 'exploration', rule, ev, len(nontrivial) + h.stat('neg_nonkeys'), True,
